@@ -7,17 +7,7 @@
 (* window start / counter of that quota object at the current instant.           *)
 (* A mismatch is MODEL-DRIFT (the code no longer behaves like the model), not a  *)
 (* violation of the property.                                                    *)
-EXTENDS TraceLib, Integers, FiniteSets
-
-Cfg == TraceLog[1]
-SeqSet(s) == {s[i] : i \in 1..Len(s)}
-Quota == SeqSet(Cfg.quotas)
-Group == SeqSet(Cfg.groups)
-Parent == Cfg.parent
-Max == Cfg.Max
-W == Cfg.W
-Grouped == Cfg.grouped
-Gran == 2
+EXTENDS FixedWindowCfg, FiniteSets
 Ids == {"x"}
 Variant == "none"
 
